@@ -255,38 +255,72 @@ func checkC11(c *Ctx) {
 				if !ok {
 					return
 				}
-				// the condition may be computed under the mutex and tested after unlocking
+				// the condition may be computed under the mutex and tested after unlocking, or in a
+				// helper that returns it: the candidates are the tested literal and what it implies
 				cond := m.traceValue(ifi.Cond)
-				l := m.litOf(cond, true, ifi)
-				if l.S.Op != "bin" || l.S.Name != "==" || len(l.S.Args) != 2 {
-					return
+				l0 := m.litOf(cond, true, ifi)
+				type cand struct {
+					l     Lit
+					truth bool // truth of the tested literal under which l holds
 				}
-				for i := 0; i < 2; i++ {
-					cur, captured := l.S.Args[i], l.S.Args[1-i]
-					if cur.Op != "path" || cur.V == nil || captured.V == nil {
+				var cands []cand
+				cands = append(cands, cand{l0, true})
+				for _, t := range []bool{true, false} {
+					tested := Lit{S: l0.S, Truth: l0.Truth == t, If: ifi}
+					for _, d := range m.resultFacts(tested) {
+						cands = append(cands, cand{d, t})
+					}
+				}
+				for _, cd := range cands {
+					l := cd.l
+					if l.S.Op != "bin" || l.S.Name != "==" || len(l.S.Args) != 2 {
 						continue
 					}
-					// captured: traces back to a load of the same field in the arming function
-					tv := m.traceValue(captured.V)
-					ts := m.Sym.Of(tv)
-					if ts.Op != "path" || ts.Name != cur.Name {
-						continue
-					}
-					if in2, ok := tv.(ssa.Instruction); !ok || in2.Parent() != s.fn {
-						continue
-					}
-					nGen++
-					genField = cur.Name
-					differsEdge := 1
-					if !l.Truth {
-						differsEdge = 0
-					}
-					bad := reachableFromEdge(in.Block(), differsEdge, isDemoteCall)
-					c.check(!bad, "R3", "no demotion by a superseded or cancelled timer in "+shortFn(g), in, "demotion reachable from the edge where the captured %s differs from the current one: %v", cur.Name, bad)
-					// the comparison is made under the handler mutex
-					if ci, ok := cond.(ssa.Instruction); ok {
-						locks := la.MustBefore(ci)
-						c.check(len(locks) > 0, "R3", "generation compared under the handler mutex in "+shortFn(g), ci, "must-lockset %s", locks)
+					for i := 0; i < 2; i++ {
+						cur, captured := l.S.Args[i], l.S.Args[1-i]
+						if cur.Op != "path" || captured.V == nil {
+							continue
+						}
+						// captured: traces back to a load of the same field in the arming function
+						tv := m.traceValue(captured.V)
+						ts := m.Sym.Of(tv)
+						if ts.Op != "path" || ts.Name != cur.Name {
+							continue
+						}
+						if in2, ok := tv.(ssa.Instruction); !ok || in2.Parent() != s.fn {
+							continue
+						}
+						nGen++
+						genField = cur.Name
+						// the edge of this If on which "captured == current" is false
+						equalWhenCondTrue := l.Truth == cd.truth
+						differsEdge := 1
+						if !equalWhenCondTrue {
+							differsEdge = 0
+						}
+						if !l0.Truth {
+							differsEdge = 1 - differsEdge
+						}
+						if cd.l.S == l0.S {
+							// the tested literal itself
+							differsEdge = 1
+							if !l.Truth {
+								differsEdge = 0
+							}
+						}
+						bad := reachableFromEdge(in.Block(), differsEdge, isDemoteCall)
+						c.check(!bad, "R3", "no demotion by a superseded or cancelled timer in "+shortFn(g), in, "demotion reachable from the edge where the captured %s differs from the current one: %v", cur.Name, bad)
+						// the comparison is made under the handler mutex
+						var cmpAt ssa.Instruction
+						if ci, ok := l.S.V.(ssa.Instruction); ok {
+							cmpAt = ci
+						} else if ci, ok := cond.(ssa.Instruction); ok {
+							cmpAt = ci
+						}
+						if cmpAt != nil {
+							locks := la.MustBefore(cmpAt)
+							c.check(len(locks) > 0, "R3", "generation compared under the handler mutex in "+shortFn(g), cmpAt, "must-lockset %s", locks)
+						}
 					}
 				}
 			})
